@@ -46,7 +46,7 @@ THEOREMS["C16"] = [("Flurry.Props.C16", [
 THEOREMS["C17"] = [("Flurry.Props.C17", [
     "Flurry.C17.inserting_needs_send_sync", "Flurry.C17.lookup_unbounded", "Flurry.C17.binentry_conditional"])]
 
-THEOREMS["C01"] = [("Flurry.Props.C01Source", ["Flurry.C01Source.every_bin_lock_is_rechecked", "Flurry.C01Source.lock_sites_present", "Flurry.C01Source.clear_waits_for_commit"]), ("Flurry.Props.C10", ["Flurry.C10.fill_then_forward_then_retire"]), ("Flurry.Props.C13", ["Flurry.C13.wrappers_delegate_by_name"]), ("Flurry.Props.C01Bin", ["Flurry.Proto.Bin.bin_linearizable", "Flurry.Proto.Bin.bin_linearizable_quiescent", "Flurry.Proto.Bin.bin_linearizable_writers", "Flurry.Proto.Bin.writers_mutex", "Flurry.Proto.Bin.writerStore_spec", "Flurry.Proto.Bin.reachable_inv"]), ("Flurry.Props.C01BinW", ["Flurry.Proto.BinW.binw_linearizable", "Flurry.Proto.BinW.binw_linearizable_quiescent", "Flurry.Proto.BinW.storeAt_eq_writerStore_reachable", "Flurry.Proto.BinW.walkers_mutex", "Flurry.Proto.BinW.binw_simulated"]), ("Flurry.Props.C01BinX", ["Flurry.Proto.BinX.binx_linearizable_quiescent", "Flurry.Proto.BinX.binx_linearizable", "Flurry.Proto.BinX.binx_linearizable_writers", "Flurry.Proto.BinX.transfer_abs_invariant", "Flurry.Proto.BinX.validated_mutex", "Flurry.Proto.BinX.resize_facts", "Flurry.Proto.BinX.chains_wellformed"]), ("Flurry.Lemmas.BinXExamples", ["Flurry.Proto.BinX.noCheck_refutes"]), ("Flurry.Lemmas.BinXCExamples", ["Flurry.Proto.BinXC.binxc_linearizable_quiescent", "Flurry.Proto.BinXC.binxc_linearizable", "Flurry.Proto.BinXC.retired_unreachable", "Flurry.Proto.BinXC.retired_dead", "Flurry.Proto.BinXC.validated_mutex", "Flurry.Proto.BinXC.new_table_after_moved", "Flurry.Proto.BinXC.noWait_retires_reachable", "Flurry.Proto.BinXC.noWait_not_linearizable"]), ("Flurry.Props.C01BinT", ["Flurry.Proto.BinT.bint_linearizable_quiescent", "Flurry.Proto.BinT.bint_linearizable", "Flurry.Proto.BinT.bint_linearizable_writers", "Flurry.Proto.BinT.bint_inv", "Flurry.Proto.BinT.remove_locks_before_unlink", "Flurry.Proto.BinT.insert_prepends_then_links_then_locks", "Flurry.Proto.BinT.bint_not_linearizable", "Flurry.Proto.BinT.not_bint_linearizable_quiescent"]), ("Flurry.Lemmas.BinWExamples", ["Flurry.Proto.BinW.noCheck_not_linearizable_doubleRemove", "Flurry.Proto.BinW.noCheck_not_linearizable_lostInsert", "Flurry.Proto.BinW.noCheck_refutes"]), ("Flurry.Props.C01", [
+THEOREMS["C01"] = [("Flurry.Props.C01Source", ["Flurry.C01Source.every_bin_lock_is_rechecked", "Flurry.C01Source.lock_sites_present", "Flurry.C01Source.clear_waits_for_commit"]), ("Flurry.Props.C10", ["Flurry.C10.fill_then_forward_then_retire"]), ("Flurry.Props.C13", ["Flurry.C13.wrappers_delegate_by_name"]), ("Flurry.Props.C01Bin", ["Flurry.Proto.Bin.bin_linearizable", "Flurry.Proto.Bin.bin_linearizable_quiescent", "Flurry.Proto.Bin.bin_linearizable_writers", "Flurry.Proto.Bin.writers_mutex", "Flurry.Proto.Bin.writerStore_spec", "Flurry.Proto.Bin.reachable_inv"]), ("Flurry.Props.C01BinW", ["Flurry.Proto.BinW.binw_linearizable", "Flurry.Proto.BinW.binw_linearizable_quiescent", "Flurry.Proto.BinW.storeAt_eq_writerStore_reachable", "Flurry.Proto.BinW.walkers_mutex", "Flurry.Proto.BinW.binw_simulated"]), ("Flurry.Props.C01BinX", ["Flurry.Proto.BinX.binx_linearizable_quiescent", "Flurry.Proto.BinX.binx_linearizable", "Flurry.Proto.BinX.binx_linearizable_writers", "Flurry.Proto.BinX.transfer_abs_invariant", "Flurry.Proto.BinX.validated_mutex", "Flurry.Proto.BinX.resize_facts", "Flurry.Proto.BinX.chains_wellformed"]), ("Flurry.Lemmas.BinXExamples", ["Flurry.Proto.BinX.noCheck_refutes"]), ("Flurry.Lemmas.BinXCExamples", ["Flurry.Proto.BinXC.binxc_linearizable_quiescent", "Flurry.Proto.BinXC.binxc_linearizable", "Flurry.Proto.BinXC.retired_unreachable", "Flurry.Proto.BinXC.retired_dead", "Flurry.Proto.BinXC.validated_mutex", "Flurry.Proto.BinXC.new_table_after_moved", "Flurry.Proto.BinXC.noWait_retires_reachable", "Flurry.Proto.BinXC.noWait_not_linearizable"]), ("Flurry.Props.C01BinT", ["Flurry.Proto.BinT.bint_linearizable_quiescent", "Flurry.Proto.BinT.bint_linearizable", "Flurry.Proto.BinT.bint_linearizable_writers", "Flurry.Proto.BinT.bint_inv", "Flurry.Proto.BinT.remove_locks_before_unlink", "Flurry.Proto.BinT.insert_locks_before_prepend", "Flurry.Proto.BinT.bint_not_linearizable", "Flurry.Proto.BinT.not_bint_linearizable_quiescent"]), ("Flurry.Lemmas.BinWExamples", ["Flurry.Proto.BinW.noCheck_not_linearizable_doubleRemove", "Flurry.Proto.BinW.noCheck_not_linearizable_lostInsert", "Flurry.Proto.BinW.noCheck_refutes"]), ("Flurry.Props.C01", [
     "Flurry.C01.certificate_sound", "Flurry.C01.decision_correct", "Flurry.C01.not_linearizable_iff",
     "Flurry.C01.linearization_points", "Flurry.C01.no_resurrection", "Flurry.C01.reads_pure",
     "Flurry.C01.insert_then_read", "Flurry.C01.remove_then_read", "Flurry.C01.final_read"])]
@@ -247,6 +247,8 @@ CONC_TAGS = {
     "quiescent": ["C05"], "panic": ["C01", "C18"], "double-free": ["C03", "C04"], "crash": ["C01", "C03", "C08", "C11", "C12", "C05", "C10", "C13", "C07"],
     "uaf": ["C03"], "early-free": ["C03", "C04"], "retire-reachable": ["C03"], "drop": ["C04"], "iter": ["C07"], "retain": ["C13"],
     "resize": ["C10"], "hb": ["C15"], "clear": ["C05"],
+    # an iterator's view that no order of the (consistent) single-key operations explains
+    "iter-lin": ["C07"],
 }
 
 
